@@ -242,7 +242,13 @@ func init() {
 		key := obj.V.(PtrVal).Field(idx).Key()
 		mu := "atomic"
 		if m, ok := args[2].(IfaceVal); ok && m.T != nil {
-			mu = m.V.(PtrVal).Key()
+			if sv, isStr := m.V.(StrVal); isStr {
+				// "readonly": an object the program shares with the library (concurrent readers exist): loads are
+				// fine, any store by repository code is a conflicting access
+				mu = strArg(sv)
+			} else {
+				mu = m.V.(PtrVal).Key()
+			}
 		}
 		ng := make(map[string]guardDecl, len(st.guards)+1)
 		for k, v := range st.guards {
